@@ -1,5 +1,6 @@
 #!/usr/bin/env python3
-"""Builds seeded/MATRIX.md from logs of tools/seeded.py (target-only run and all-props run)."""
+"""Builds seeded/MATRIX.md from logs of tools/seeded.py (target-only run, then any number of
+all-props runs) and records the confirmation (`confirmed`) in each change's meta.json."""
 import json
 import os
 import re
@@ -25,13 +26,18 @@ def parse(path):
 
 def main():
     target, demo = parse(sys.argv[1])
-    allp, demo2 = parse(sys.argv[2]) if len(sys.argv) > 2 else ({}, {})
+    allp, demo2 = {}, {}
+    for extra in sys.argv[2:]:
+        a, d2 = parse(extra)
+        for k, v in a.items():
+            allp.setdefault(k, {}).update(v)
+        demo2.update(d2)
     demo.update({k: v for k, v in demo2.items() if k not in demo})
     out = ["# Seeded changes: catch matrix", "",
            "Each row is one independently written change kept under `seeded/<name>/` (patch.diff, demo.py, meta.json).",
            "`demo` = exit status of demo.py on the clean copy / on the patched copy (confirmed by `tools/seeded.py`).",
            "`target` = verdict of the quick check of the property the change was written against; `also caught by` = other quick checks that",
-           "exit 1 on the patched copy (from the all-properties run, available for the first round of changes).", "",
+           "exit 1 on the patched copy (from the all-properties runs).", "",
            "| change | property | what was changed | needs | demo | target check | first bucket | also caught by |", "|---|---|---|---|---|---|---|---|"]
     for name in sorted(target):
         sd = os.path.join(HERE, "seeded", name)
@@ -45,6 +51,20 @@ def main():
         bucket = re.sub(r"^FAIL bucket=", "", det).split(" :: ")[0]
         others = sorted(p for p, (s, _) in allp.get(name, {}).items() if s == "CAUGHT" and p != prop)
         d = demo.get(name, ("?", "?"))
+        if meta:
+            meta.setdefault("breaks_property", prop)
+            meta["confirmed"] = {
+                "what_was_run": "tools/seeded.py: patch applied with `patch -p1` to a scratch copy of /repo's hugr-py, specification, scripts (never to /repo); "
+                "demo.py run on a clean copy and on the patched copy; baseline tests (180) confirmed passing with the patch by the authoring agent in its own "
+                "worktree; ./check <property> quick with VERIF_REPO=<patched copy>",
+                "demo_exit_clean": d[0],
+                "demo_exit_patched": d[1],
+                "target_check": st,
+                "first_bucket": det[:200],
+            }
+            with open(os.path.join(sd, "meta.json"), "w") as f:
+                json.dump(meta, f, indent=1)
+                f.write("\n")
         out.append(f"| {name} | {prop} | {meta.get('summary', '').replace('|', '/')[:160]} | {meta.get('needs', '').replace('|', '/')[:160]} | {d[0]}/{d[1]} | {st} | `{bucket[:90]}` | {', '.join(others) or '-'} |")
     n = len(target)
     c = sum(1 for name in target if target[name].get(json.load(open(os.path.join(HERE, 'seeded', name, 'meta.json'))).get('property', name[:3]), ('?',))[0] == 'CAUGHT')
